@@ -22,6 +22,10 @@ type edit struct {
 	New  string
 }
 
+// editLineHint: optional 1-based line of an edit's Old text, used to choose among several occurrences (hunks of
+// seeded patches carry one).
+var editLineHint = map[string]int{}
+
 type variant struct {
 	Name   string
 	Props  []string // properties to run
@@ -56,8 +60,32 @@ func buildOverlay(root string, v variant) (map[string][]byte, error) {
 			cur = b
 		}
 		s := string(cur)
-		if strings.Count(s, e.Old) != 1 {
-			return nil, fmt.Errorf("stale: %q occurs %d times in %s", firstLine(e.Old), strings.Count(s, e.Old), e.File)
+		if n := strings.Count(s, e.Old); n != 1 {
+			if hint := editLineHint[e.File+"\x00"+e.Old]; n > 1 && hint > 0 {
+				// choose the occurrence that starts closest to the hinted line
+				best, bestD := -1, 1<<30
+				for off := 0; ; {
+					i := strings.Index(s[off:], e.Old)
+					if i < 0 {
+						break
+					}
+					at := off + i
+					ln := 1 + strings.Count(s[:at], "\n")
+					d := ln - hint
+					if d < 0 {
+						d = -d
+					}
+					if d < bestD {
+						best, bestD = at, d
+					}
+					off = at + 1
+				}
+				if best >= 0 && bestD <= 60 {
+					ov[p] = []byte(s[:best] + e.New + s[best+len(e.Old):])
+					continue
+				}
+			}
+			return nil, fmt.Errorf("stale: %q occurs %d times in %s", firstLine(e.Old), n, e.File)
 		}
 		ov[p] = []byte(strings.Replace(s, e.Old, e.New, 1))
 	}
